@@ -37,16 +37,28 @@ DOM = {2: ["yes", "no"], 3: ["lo", "mid", "hi"]}
 # per-variable labelling: B lists the same labels in another order (a shared label sits at different positions in
 # different domains); values are numbered by their position in the variable's OWN domain
 DOMV = {"A": {2: ["yes", "no"], 3: ["lo", "mid", "hi"]}, "B": {2: ["no", "yes"], 3: ["hi", "lo", "mid"]},
-        "C": {2: ["yes", "no"], 3: ["mid", "hi", "lo"]}}
+        "C": {2: ["yes", "no"], 3: ["mid", "hi", "lo"]}, "D": {2: ["t", "f"], 3: ["lo", "mid", "hi"]},
+        "E": {2: ["no", "yes"], 3: ["c", "b", "a"]}}
+# a variable named X2 is a look-alike of X: same labels, same parents, same rows - only the name differs
+DOMV["A2"] = DOMV["A"]
 STRUCTS = {
     "single": {"A": []},
     "chain2": {"A": [], "B": ["A"]},
     "fork": {"A": [], "B": ["A"], "C": ["A"]},
     "collider": {"A": [], "B": [], "C": ["A", "B"]},
     "chain3": {"A": [], "B": ["A"], "C": ["B"]},
+    "diamond": {"A": [], "B": ["A"], "C": ["A"], "D": ["B", "C"]},
+    # look-alike roots: C hangs on one of them and on a node that is released later
+    "twinroots": {"A": [], "A2": [], "D": [], "E": ["D"], "C": ["A2", "E"]},
+    # look-alike sensors of one cause
+    "twinsensors": {"D": [], "A": ["D"], "A2": ["D"], "E": ["A"], "C": ["A2", "E"]},
+    "deep": {"A": [], "B": ["A"], "D": ["B"], "E": ["D"], "C": ["A", "E"]},
 }
+BIG = ("diamond", "twinroots", "twinsensors", "deep")
 NOTATIONS = ["table", "entries", "default+entries", "table+override"]
-NAMESETS = [{"A": "A", "B": "B", "C": "C"}, {"A": "A-b", "B": "X_1", "C": "Ab"}, {"A": "smoke", "B": "B-x", "C": "bx"}]
+NAMESETS = [{"A": "A", "B": "B", "C": "C", "D": "D", "E": "E", "A2": "A2"},
+            {"A": "A-b", "B": "X_1", "C": "Ab", "D": "D.1", "E": "e", "A2": "A_b"},
+            {"A": "smoke", "B": "B-x", "C": "bx", "D": "zeta", "E": "alpha", "A2": "smoke2"}]
 
 
 def rule(tier):
@@ -68,12 +80,17 @@ def build_network(struct, sizes, offset=0):
             rows[comb] = ROWS[sizes[v]][r % len(ROWS[sizes[v]])]
             r += 1
         net[v] = {"parents": ps, "size": sizes[v], "rows": rows}
+    for v in net:
+        if v.endswith("2"):
+            net[v]["rows"] = dict(net[v[:-1]]["rows"])
     return net
 
 
-def render_bif(net, notations, names, sizes, break_kind=None):
+def render_bif(net, notations, names, sizes, break_kind=None, order=None):
     out = ["network test {\n}"]
-    for v in net:
+    keys = list(net)
+    decl = [keys[i] for i in order] if order else keys
+    for v in decl:
         out.append("variable %s {\n  type discrete [ %d ] { %s };\n}" % (names[v], sizes[v], ", ".join(DOMV[v][sizes[v]])))
     for vi, (v, info) in enumerate(net.items()):
         ps = info["parents"]
@@ -126,7 +143,9 @@ def render_bif(net, notations, names, sizes, break_kind=None):
             wrong[combs[0]] = ROWS[info["size"]][-1] if rowtxt[combs[0]] != ROWS[info["size"]][-1] else ROWS[info["size"]][-2]
             body.append(table_line(wrong))
             body.append(entry(combs[0], rowtxt[combs[0]]))
-        out.append("probability ( %s ) {\n%s\n}" % (head, "\n".join(body)))
+        out.append((v, "probability ( %s ) {\n%s\n}" % (head, "\n".join(body))))
+    blocks = dict(x for x in out if isinstance(x, tuple))
+    out = [x for x in out if not isinstance(x, tuple)] + [blocks[v] for v in decl]
     return "\n".join(out) + "\n"
 
 
@@ -149,6 +168,23 @@ def cases(tier, seed):
     for sname, st in STRUCTS.items():
         vs = list(st)
         size_opts = [dict(zip(vs, s)) for s in itertools.product([2, 3], repeat=len(vs))]
+        size_opts = [s for s in size_opts if all(s[v] == s[v[:-1]] for v in vs if v.endswith("2"))]
+        if sname in BIG:
+            # larger shapes: every declaration order of the variable / probability blocks from a small set, uniform notations
+            so = [size_opts[0], size_opts[-1]] if tier == "quick" else size_opts[::3] + [size_opts[-1]]
+            k = len(vs)
+            orders = [list(range(k)), list(range(k - 1, -1, -1)), list(range(1, k)) + [0], [k - 1] + list(range(k - 1))]
+            if tier != "quick":
+                orders = [list(p) for p in itertools.permutations(range(k))][::(1 if k < 5 else 5)]
+            for si, sizes in enumerate(so):
+                for oi, order in enumerate(orders):
+                    for ni, nt in enumerate(NOTATIONS):
+                        if tier == "quick" and (oi + ni) % 2 and oi:
+                            continue
+                        out.append({"input": {"kind": "network", "struct": sname, "sizes": sizes, "notations": [nt] * k,
+                                              "names": {v: NAMESETS[(oi + ni) % 3][v] for v in vs}, "offset": (oi + si) % 3, "order": order,
+                                              "queries": oi == 0 and ni == 0}})
+            continue
         if tier == "quick":
             size_opts = [s for i, s in enumerate(size_opts) if i in (0, len(size_opts) - 1) or (len(vs) == 2)]
         for sizes in size_opts:
@@ -183,7 +219,7 @@ def run_case(case):
     sizes = inp["sizes"]
     net = build_network(inp["struct"], sizes, inp["offset"])
     names = inp["names"]
-    text = render_bif(net, inp["notations"], names, sizes, inp.get("break"))
+    text = render_bif(net, inp["notations"], names, sizes, inp.get("break"), inp.get("order"))
     tmp = tempfile.mkdtemp(prefix="c15_")
     try:
         path = os.path.join(tmp, "net.bif")
